@@ -89,9 +89,10 @@ inline bool RelPathMatch(const std::string & sessionRoot, const std::string & pa
 //                                 | "e" (field "v" exists) | "A(<f>,<f>)" | "O(<f>,<f>)"
 struct Filt
 {
-   char kind = '-'; char op = '>'; int k = 0, lo = 0, hi = 0; std::vector<Filt> kids;
+   char kind = '-'; char op = '>'; int k = 0, lo = 0, hi = 0; std::vector<Filt> kids; std::string name;   // kinds: - i w e c n A O
    bool IsNone() const {return kind == '-';}
-   bool Eval(uint32_t what, bool hasV, int32_t v) const
+   // (cc, nm): the node the payload hangs on -- its child count and its name -- for the two node-aware kinds 'c' and 'n'
+   bool Eval(uint32_t what, bool hasV, int32_t v, uint32_t cc = 0, const std::string & nm = std::string()) const
    {
       switch(kind)
       {
@@ -99,17 +100,20 @@ struct Filt
                    switch(op) {case '>': return v > k; case '<': return v < k; case '=': return v == k; case '!': return v != k; case 'G': return v >= k; default: return v <= k;}
          case 'w': return ((int64_t) what >= lo)&&((int64_t) what <= hi);
          case 'e': return hasV;
-         case 'A': for (auto & f : kids) if (!f.Eval(what, hasV, v)) return false; return true;
-         case 'O': for (auto & f : kids) if (f.Eval(what, hasV, v)) return true; return false;
+         case 'c': {const int c = (int) cc; switch(op) {case '>': return c > k; case '<': return c < k; case '=': return c == k; case '!': return c != k; case 'G': return c >= k; default: return c <= k;}}
+         case 'n': return (nm == name);
+         case 'A': for (auto & f : kids) if (!f.Eval(what, hasV, v, cc, nm)) return false; return true;
+         case 'O': for (auto & f : kids) if (f.Eval(what, hasV, v, cc, nm)) return true; return false;
          default:  return true;
       }
    }
-   bool EvalMsg(const muscle::Message * m) const
+   bool NodeAware() const {if ((kind == 'c')||(kind == 'n')) return true; for (auto & f : kids) if (f.NodeAware()) return true; return false;}
+   bool EvalMsg(const muscle::Message * m, uint32_t cc = 0, const std::string & nm = std::string()) const
    {
       if (kind == '-') return true;
       if (m == NULL) return true;   // a node without any payload object is never subjected to filters (consistent throughout the server)
       int32 v = 0; const bool hasV = m->FindInt32("v", v).IsOK();
-      return Eval(m->what, hasV, v);
+      return Eval(m->what, hasV, v, cc, nm);
    }
    std::string Str() const
    {
@@ -118,6 +122,8 @@ struct Filt
          case 'i': return std::string("i") + op + I(k);
          case 'w': return "w" + I(lo) + "-" + I(hi);
          case 'e': return "e";
+         case 'c': return std::string("c") + op + I(k);
+         case 'n': return "n" + name + ";";
          case 'A': case 'O': {std::string s(1, kind); s += "("; for (size_t i=0; i<kids.size(); i++) {if (i) s += ","; s += kids[i].Str();} return s + ")";}
          default:  return "-";
       }
@@ -139,6 +145,13 @@ struct Filt
          e = pos; while((e < s.size())&&(isdigit((unsigned char) s[e]))) e++; f.hi = atoi(s.substr(pos, e-pos).c_str()); pos = e;
       }
       else if (c == 'e') {f.kind = 'e'; pos++;}
+      else if (c == 'c')
+      {
+         f.kind = 'c'; pos++; if (pos < s.size()) f.op = s[pos++];
+         size_t e = pos; while((e < s.size())&&(isdigit((unsigned char) s[e]))) e++;
+         f.k = atoi(s.substr(pos, e-pos).c_str()); pos = e;
+      }
+      else if (c == 'n') {f.kind = 'n'; pos++; size_t e = s.find(';', pos); if (e == std::string::npos) e = s.size(); f.name = s.substr(pos, e-pos); pos = (e < s.size()) ? (e+1) : e;}
       else if ((c == 'A')||(c == 'O'))
       {
          f.kind = c; pos++; if ((pos < s.size())&&(s[pos] == '(')) pos++;
@@ -164,6 +177,14 @@ struct Filt
          }
          case 'w': return ConstQueryFilterRef(new WhatCodeQueryFilter((uint32) lo, (uint32) hi));
          case 'e': return ConstQueryFilterRef(new ValueExistsQueryFilter("v"));
+         case 'c':
+         {
+            uint8 o = ChildCountQueryFilter::OP_GREATER_THAN;
+            switch(op) {case '>': o = ChildCountQueryFilter::OP_GREATER_THAN; break; case '<': o = ChildCountQueryFilter::OP_LESS_THAN; break; case '=': o = ChildCountQueryFilter::OP_EQUAL_TO; break;
+                        case '!': o = ChildCountQueryFilter::OP_NOT_EQUAL_TO; break; case 'G': o = ChildCountQueryFilter::OP_GREATER_THAN_OR_EQUAL_TO; break; default: o = ChildCountQueryFilter::OP_LESS_THAN_OR_EQUAL_TO; break;}
+            return ConstQueryFilterRef(new ChildCountQueryFilter(o, k));
+         }
+         case 'n': return ConstQueryFilterRef(new NodeNameQueryFilter(NodeNameQueryFilter::OP_EQUAL_TO, String(name.c_str())));
          case 'A': {AndQueryFilter * a = new AndQueryFilter; for (auto & f : kids) (void) a->GetChildren().AddTail(f.ToMuscle()); return ConstQueryFilterRef(a);}
          case 'O': {OrQueryFilter * a = new OrQueryFilter; for (auto & f : kids) (void) a->GetChildren().AddTail(f.ToMuscle()); return ConstQueryFilterRef(a);}
          default:  return ConstQueryFilterRef();
